@@ -960,7 +960,7 @@ class C08(Prop):
         return out
 
     def project(self, case, line):
-        return tree_or_err(parse_part(line)) + " || " + compile_part(line)
+        return std_struct(line)
 
     def known_class(self, case):
         return "-" in unesc_case(case).split(" ", 1)[1][1:] if False else None
